@@ -92,6 +92,7 @@ func (e entry) value() string {
 type sem struct {
 	Part     string `json:"part"` // name | env
 	Dir      string `json:"dir"`
+	Symlink  string `json:"symlink,omitempty"` // Dir is a symbolic link to a sibling directory of this name
 	WdMode   string `json:"wd_mode"`  // none | abs | rel | other
 	NameOpt  string `json:"name_opt"` // omit | set
 	Explicit string `json:"explicit"`
@@ -255,6 +256,13 @@ func execute(root string, c *sem) (out outcome, pi *core.PanicInfo, files map[st
 	if c.WdMode == "other" {
 		cfgDir = filepath.Join(root, "zz-elsewhere")
 	}
+	if c.Symlink != "" {
+		_ = os.MkdirAll(filepath.Join(root, c.Symlink), 0o755)
+		_ = os.MkdirAll(filepath.Dir(proj), 0o755)
+		if err := os.Symlink(filepath.Join(root, c.Symlink), proj); err != nil {
+			_ = os.MkdirAll(proj, 0o755)
+		}
+	}
 	_ = os.MkdirAll(proj, 0o755)
 	_ = os.MkdirAll(cfgDir, 0o755)
 	write := func(dir, name, content string) string {
@@ -410,6 +418,9 @@ func judge(s *core.Shard, c *sem) {
 	ord := strings.Join(orders[c.Order%len(orders)], ",")
 	s.Cover("option-order", ord)
 	s.Cover("wd-mode", c.WdMode)
+	if c.Symlink != "" {
+		s.Cover("project-directory", "symbolic link to a directory with another base name")
+	}
 	s.Cover("env-files", c.EnvFiles)
 	if c.Part == "name" {
 		s.Cover("name-shape", c.Shape)
